@@ -132,14 +132,14 @@ static int each_visit(void *e, void *p)
         memset(&pool[id].hn, 0xA5, sizeof pool[id].hn);   /* "freed" by the callback */
         pool[id].hn.key = keyof[id];
     }
-    return (cb_stop && cb_count == cb_stop) ? 100 + cb_stop : 0;
+    return (cb_stop && cb_count == cb_stop) ? e_stopval(cb_stop) : 0;
 }
 static int each_visit_const(const void *e, void *p)
 {
     e_check_priv(p);
     cb_count++;
     ev_add("[\"v\",%d]", id_of_el(e));
-    return (cb_stop && cb_count == cb_stop) ? 100 + cb_stop : 0;
+    return (cb_stop && cb_count == cb_stop) ? e_stopval(cb_stop) : 0;
 }
 static void clear_cb(void *e, void *p)
 {
